@@ -348,3 +348,39 @@ if __name__ == "__main__":
                 if diffs < 3:
                     print(lang, n, a[:2], b[:2], st["expected"], s[n]["expected"], st["stay"], s[n]["stay"])
         print(lang, len(s), nt, "diffs", diffs)
+
+
+def sibling_lookaheads(lang):
+    """{'lookahead_0': {'expected': [...], 'skip': [...]}, ...} from a sibling generated parser (line-regex extraction)"""
+    rel, _ = SIBLINGS[lang]
+    lines = open(os.path.join(REPO, rel), encoding="utf8").read().splitlines()
+    kind_re = re.compile(r"(?:isM|m)atch_?([A-Z][A-Za-z]+)\(")
+    def_re = re.compile(r"^\s*(?:func .*|def |private .*|static bool )\s*lookahead_?(\d)\(")
+    out = {}
+    i = 0
+    while i < len(lines):
+        m = def_re.search(lines[i])
+        if not m:
+            i += 1
+            continue
+        name = "lookahead_" + m.group(1)
+        exp, skip = [], []
+        phase = 0
+        j = i + 1
+        while j < len(lines):
+            ln = lines[j]
+            if def_re.search(ln):
+                break
+            ks = kind_re.findall(ln)
+            if phase == 0:
+                exp += ks
+            else:
+                skip += ks
+            if re.search(r"match\s*=\s*(true|1)\b", ln):
+                phase = 1
+            if re.search(r"return\s+match", ln):
+                break
+            j += 1
+        out[name] = {"expected": exp, "skip": skip}
+        i = j
+    return out
